@@ -23,12 +23,14 @@
 (*                         (FALSE: iff #in-sync shards < MinShard)            *)
 (*   TailNeedsEmpty        an expired idle tail shard is removed only if its  *)
 (*                         planned set is empty                               *)
-(* The pinned tree was (0, FALSE, FALSE, FALSE, FALSE); the repaired tree     *)
-(* (fix: commits, see known_findings.json) is (3, TRUE, TRUE, TRUE, TRUE).    *)
+(*   TooBigFirst           relief stops at a too big target before looking at  *)
+(*                         whether the target is a candidate for moving        *)
+(* The pinned tree was (0, FALSE, FALSE, FALSE, FALSE, FALSE); the repaired    *)
+(* tree (fix: commits, see known_findings.json) is (3, TRUE, ..., TRUE).       *)
 (***************************************************************************)
 EXTENDS Integers, Sequences, FiniteSets, TLC, SequencesExt
 
-CONSTANTS MinWait, HeadReliefChecksProc, TooBigUsesTotal, EarlyByShardCount, TailNeedsEmpty,
+CONSTANTS MinWait, HeadReliefChecksProc, TooBigUsesTotal, EarlyByShardCount, TailNeedsEmpty, TooBigFirst,
           InputSet            \* set of input records explored by this run
 
 VARIABLES in,        \* the input record (constant during a behaviour)
@@ -190,7 +192,7 @@ AllevP ==
             IF TotalProc(cur) <= MaxProc
               THEN NextShardP /\ UNCHANGED <<pc, pl, ld, need>>
               ELSE tot' = TotalProc(cur) /\ UNCHANGED <<pc, cur, vis, pl, ld, need>>
-     ELSE LET cand == {t \in (DOMAIN pl[cur]) \ vis : ProcElig(pl[cur][t])} IN
+     ELSE LET cand == {t \in (DOMAIN pl[cur]) \ vis : ProcElig(pl[cur][t]) \/ (TooBigFirst /\ ProcTooBig(pl[cur][t]))} IN
           IF tot <= MaxProc \/ cand = {}
             THEN /\ need' = [need EXCEPT !.proc = @ + (IF tot > MaxProc THEN tot - MaxProc ELSE 0)]
                  /\ NextShardP /\ UNCHANGED <<pc, pl, ld>>
@@ -208,6 +210,7 @@ AllevP ==
   /\ UNCHANGED <<in, ch, idl, sps, scale, reqs, posts, scales>>
 
 (* A.5 relief pass 2: head series *)
+HeadTooBig(e) == e.series > MaxHead \/ (HeadReliefChecksProc /\ e.total > MaxProc)
 Rate(x, num) == (x * num) \div 10        \* int64(float64(x) * (num/10)) for the x in use
 HeadExp(h) ==   \* expected head series for running head h, or -1 if no threshold matches
   IF h >= Rate(MaxHead, 18) THEN 0
@@ -229,7 +232,7 @@ AllevH ==
               THEN NextShardP /\ UNCHANGED <<pc, pl, ld, need, sps>>
               ELSE tot' = TotalHead(cur) /\ sps' = <<ex>> /\ UNCHANGED <<pc, cur, vis, pl, ld, need>>
      ELSE LET ex   == sps[1]
-              cand == {t \in (DOMAIN pl[cur]) \ vis : Eligible(pl[cur][t])} IN
+              cand == {t \in (DOMAIN pl[cur]) \ vis : Eligible(pl[cur][t]) \/ (TooBigFirst /\ HeadTooBig(pl[cur][t]))} IN
           IF tot <= ex \/ cand = {}
             THEN /\ need' = [need EXCEPT !.head = @ + (IF tot > ex THEN tot - ex ELSE 0)]
                  /\ NextShardP /\ UNCHANGED <<pc, pl, ld, sps>>
@@ -238,7 +241,7 @@ AllevH ==
                        dst == {o \in Changeable \ {cur} :
                                  /\ ld[o].head + e.series < MaxHead
                                  /\ (HeadReliefChecksProc => ProcRoom(ld[o], e))}
-                   IN IF e.series > MaxHead
+                   IN IF HeadTooBig(e)
                         THEN NextShardP /\ UNCHANGED <<pc, pl, ld, need, sps>>   \* return 0
                       ELSE IF dst = {}
                         THEN vis' = vis \cup {t} /\ UNCHANGED <<pc, cur, tot, pl, ld, need, sps>>
